@@ -727,3 +727,135 @@ Proof.
     + unfold collectModuleImports. apply in_flat_map. exists s. auto.
     + subst e. cbn [fst snd] in Hf. rewrite (init_file_exists_pkg pr m Hn Hm) in Hf. apply negb_true_iff in Hf. exact Hf.
 Qed.
+
+(* ---- wf_project: the four deviation classes are absent ---- *)
+Lemma wf_project_classes : forall pr, wf_project pr = true ->
+  project_shape pr = true /\ class_implicit_relative pr = false /\ class_init_own_submodule pr = false /\
+  class_all_hides pr = false /\ class_irregular_reexport pr = false.
+Proof.
+  intros pr H. unfold wf_project in H. apply andb_true_iff in H. destruct H as [Hs H]. unfold deviation_classes in H.
+  destruct (class_implicit_relative pr); [discriminate|]. destruct (class_init_own_submodule pr); [discriminate|].
+  destruct (class_all_hides pr); [discriminate|]. destruct (class_irregular_reexport pr); [discriminate|]. auto.
+Qed.
+
+(* without __init__ -> own submodule edges in the specification, the exceptional situation of
+   [reexport_agrees] cannot arise: "from . import n" with n a submodule would be such an edge *)
+Lemma no_bad_wf : forall pr, project_shape pr = true -> class_init_own_submodule pr = false ->
+  class_irregular_reexport pr = false -> no_bad pr.
+Proof.
+  intros pr Hshape Hown Hreg init n Hin Hpk Hself Hmod Hpy. exfalso.
+  destruct (shape_module pr init Hshape Hin) as [HP _].
+  unfold self_names in Hself. apply in_flat_map in Hself. destruct Hself as [s [Hs Hself]].
+  pose proof (regular_all pr init s Hreg Hin Hpk Hs) as Hr.
+  destruct (regular_cases pr init Hpk HP s Hr) as [[_ [_ He]]|[[ns [Htc [Hb [Hft [Hun _]]]]]|[t [ns [_ [_ [Hft [Hne _]]]]]]]].
+  - rewrite He in Hself. destruct Hself.
+  - unfold stmt_self_names in Hself. rewrite Hft, path_eqb_refl in Hself.
+    apply in_map_iff in Hself. destruct Hself as [x [Hx Hxin]].
+    rewrite forallb_forall in Hun. pose proof (Hun x Hxin) as Hox. apply N.eqb_eq in Hox.
+    assert (Hc : class_init_own_submodule pr = true); [|congruence].
+    unfold class_init_own_submodule. apply existsb_exists. exists init. split; [exact Hin|]. rewrite Hpk. cbn [andb].
+    apply existsb_exists. exists s. split; [exact Hs|]. rewrite Htc. cbn [negb andb].
+    apply existsb_exists. exists (m_path init ++ [n]). split; [|apply strict_prefixb_snoc].
+    rewrite (resolve_py_from pr init s (m_path init) ns Hft). apply filter_In. split; [|exact Hmod].
+    apply in_map_iff. exists x. split; [|exact Hxin]. rewrite Hox, Hx. exact Hpy.
+  - unfold stmt_self_names in Hself. rewrite Hft, Hne in Hself. destruct Hself.
+Qed.
+
+(* the edges pyscn leaves out on purpose are no edges of the specification then *)
+Lemma drop_own_nothing : forall pr, project_shape pr = true -> class_init_own_submodule pr = false ->
+  forall e, In e (drop_own pr (edges_py pr)) <-> In e (edges_py pr).
+Proof.
+  intros pr Hshape Hown e. pose proof (shape_nodup pr Hshape) as Hn. unfold drop_own. rewrite filter_In.
+  split; [tauto|]. intro H. split; [exact H|]. apply edges_py_spec in H.
+  destruct H as [m [s [r [Hm [Hs [Htc [Hr [Hne Heq]]]]]]]]. subst e. cbn [fst snd].
+  rewrite (init_file_exists_pkg pr m Hn Hm).
+  destruct (m_is_pkg m && strict_prefixb (m_path m) r) eqn:E; [exfalso|reflexivity].
+  apply andb_true_iff in E. destruct E as [Epk Esp].
+  assert (Hc : class_init_own_submodule pr = true); [|congruence].
+  unfold class_init_own_submodule. apply existsb_exists. exists m. split; [exact Hm|]. rewrite Epk. cbn [andb].
+  apply existsb_exists. exists s. split; [exact Hs|]. rewrite Htc. cbn [negb andb].
+  apply existsb_exists. exists r. auto.
+Qed.
+
+(* THE UNBOUNDED THEOREM: for every well-formed project the analyser's import graph is CPython's *)
+Theorem edges_wf : forall pr, wf_project pr = true -> same_edges (edges_model pr) (edges_py pr) = true.
+Proof.
+  intros pr H. destruct (wf_project_classes pr H) as [Hshape [Himp [Hown [Hall Hreg]]]].
+  apply same_edges_iff. intro e.
+  rewrite (edges_agree_general pr Hshape Himp Hall Hreg (no_bad_wf pr Hshape Hown Hreg) e).
+  apply drop_own_nothing; assumption.
+Qed.
+
+(* ---- the F32 variant: specification minus the __init__ -> own submodule edges ---- *)
+(* wf_mod_own is NOT enough for all projects (the bounded domain does not contain the situation):
+   a/__init__.py: "from .impl import fa" then "from . import fa", with modules a.impl and a.fa; top.py: "from a import fa".
+   The specification binds a.fa to the submodule, the analyser follows the re-export to a.impl. *)
+Definition w_rebound : project :=
+  [md [1%N] true [stmt (ImportRel 1 [5%N] [mk 6%N]); stmt (ImportRel 1 [] [mk 6%N])]; md [1%N; 5%N] false []; md [1%N; 6%N] false [];
+   md [8%N] false [stmt (ImportFrom [1%N] [mk 6%N])]].
+
+Lemma wf_mod_own_insufficient : exists pr, wf_mod_own pr = true /\
+  same_edges (edges_model pr) (drop_own pr (edges_py pr)) = false /\
+  edges_model pr = [([8%N], [1%N; 5%N])] /\ drop_own pr (edges_py pr) = [([8%N], [1%N; 6%N])].
+Proof. exists w_rebound. vm_compute. auto. Qed.
+
+(* class 5, a submodule name rebound: an __init__ holds "from . import n" (or "from P import n") for a submodule n
+   of the package and also takes the name n from another module *)
+Definition rebinds_submodule (pr : project) (init : pymodule) : bool :=
+  existsb (fun n => is_module pr (m_path init ++ [n]) &&
+                    existsb (fun e : name * path => N.eqb (fst e) n) (exports_of (m_path init) init)) (self_names init).
+
+Definition class_submodule_rebound (pr : project) : bool :=
+  existsb (fun m => m_is_pkg m && rebinds_submodule pr m) pr.
+
+Definition wf_mod_own_strong (pr : project) : bool := wf_mod_own pr && negb (class_submodule_rebound pr).
+
+Lemma no_bad_strong : forall pr, project_shape pr = true -> class_all_hides pr = false ->
+  class_submodule_rebound pr = false -> no_bad pr.
+Proof.
+  intros pr Hshape Hall Hreb init n Hin Hpk Hself Hmod _. pose proof (shape_nodup pr Hshape) as Hn.
+  unfold name_model. rewrite (ResolveReExport_lookup pr init n Hn Hall Hin Hpk). unfold model_lookup.
+  destruct (find (fun e : name * path => N.eqb (fst e) n) (rev (flat_map (stmt_exports (m_path init)) (m_imports init)))) as [e|] eqn:Ef.
+  - exfalso. apply find_some in Ef. destruct Ef as [He Hk]. apply in_rev in He.
+    assert (Hc : class_submodule_rebound pr = true); [|congruence].
+    unfold class_submodule_rebound. apply existsb_exists. exists init. split; [exact Hin|]. rewrite Hpk. cbn [andb].
+    unfold rebinds_submodule. apply existsb_exists. exists n. split; [exact Hself|]. rewrite Hmod. cbn [andb].
+    apply existsb_exists. exists e. rewrite exports_of_flat. auto.
+  - simpl. rewrite Hmod. reflexivity.
+Qed.
+
+Lemma wf_mod_own_classes : forall pr, wf_mod_own pr = true ->
+  project_shape pr = true /\ class_implicit_relative pr = false /\ class_all_hides pr = false /\
+  class_irregular_reexport pr = false.
+Proof.
+  intros pr H. unfold wf_mod_own in H. apply andb_true_iff in H. destruct H as [H H4].
+  apply andb_true_iff in H. destruct H as [H H3]. apply andb_true_iff in H. destruct H as [H1 H2].
+  apply negb_true_iff in H2. apply negb_true_iff in H3. apply negb_true_iff in H4. auto.
+Qed.
+
+Theorem edges_wf_own : forall pr, wf_mod_own_strong pr = true ->
+  same_edges (edges_model pr) (drop_own pr (edges_py pr)) = true.
+Proof.
+  intros pr H. unfold wf_mod_own_strong in H. apply andb_true_iff in H. destruct H as [H Hreb].
+  apply negb_true_iff in Hreb. destruct (wf_mod_own_classes pr H) as [Hshape [Himp [Hall Hreg]]].
+  apply same_edges_iff. intro e.
+  apply (edges_agree_general pr Hshape Himp Hall Hreg (no_bad_strong pr Hshape Hall Hreb) e).
+Qed.
+
+(* the strengthened predicate is satisfiable: the layout of the bounded theorem (an __init__ re-exporting two names of
+   a submodule, nested packages, same-named modules), the F32 witness, and every wf_mod_own project of the bounded domain *)
+Example wf_mod_own_strong_inhabited :
+  wf_mod_own_strong layout = true /\ wf_mod_own_strong w_init_own = true /\ wf_mod_own_strong w_cache = true /\
+  forallb (fun imp => forallb (fun f =>
+     let pr := with_stmt imp (Build_import_stmt f false PModule) in implb (wf_mod_own pr) (wf_mod_own_strong pr)) forms)
+    (module_names layout) = true.
+Proof. vm_compute. auto. Qed.
+
+(* wf_project does not exclude re-exports: a/sub/__init__.py "from ..impl import fa", top.py "from a.sub import fa" *)
+Definition w_reexp : project :=
+  [md [1%N] true []; md [1%N; 5%N] false []; md [1%N; 9%N] true [stmt (ImportRel 2 [5%N] [mk 6%N])];
+   md [8%N] false [stmt (ImportFrom [1%N; 9%N] [mk 6%N])]].
+
+Example wf_project_reexport_example :
+  wf_project w_reexp = true /\ edges_model w_reexp = [([1%N; 9%N], [1%N; 5%N]); ([8%N], [1%N; 5%N])].
+Proof. vm_compute. auto. Qed.
